@@ -137,11 +137,18 @@ func C11_NewView() {
 		return
 	}
 	env.Reach("C11.NV.emitted")
-	for variant := 0; variant < 3; variant++ {
+	for variant := 0; variant < 4; variant++ {
 		timedOut := variant == 1
 		r := wd.peer(2)
 		if timedOut {
 			r.timeout()
+		}
+		if variant == 3 {
+			// R is prepared in view 0 (its vote was not among those that elected the leader)
+			r.deliver(wd.net.ppm(0, 1, 0, blkA).ToConsensusRawMessage())
+			for _, i := range []int{1, 3} {
+				r.deliver(wd.net.pm(i, 1, 0, stub.HashOf(blkA)).ToConsensusRawMessage())
+			}
 		}
 		if variant == 2 {
 			// R is still in view 0, but its main loop has already consumed R's own election trigger for (1,0)
@@ -235,6 +242,19 @@ func C11_NextViewPrepare() {
 	s0 := len(r.st.Events)
 	r.deliver(prep.Raw)
 	env.Assert("C11.P.counted", storedBy(r, s0, "P", p.me))
+	// the producer becomes prepared in view 1 (PREPAREs of the others) and sends its COMMIT, which reaches the peer
+	// while that peer may still be in view 0: COMMITs of correct nodes are counted at that height whatever the view
+	for _, i := range othersOf(pIdx, 1) {
+		p.deliver(wd.net.pm(i, 1, 1, stub.HashOf(blk)).ToConsensusRawMessage())
+	}
+	for _, sm := range p.comm.Out[out0:] {
+		if cm, ok := sm.Msg.(*interfaces.CommitMessage); ok && cm.View() == 1 {
+			c0 := len(r.st.Events)
+			r.deliver(sm.Raw)
+			env.Assert("C11.C.counted", storedBy(r, c0, "C", p.me))
+			env.Reach("C11.C.future_view")
+		}
+	}
 	if early {
 		env.Reach("C11.P.future_view")
 		r.timeout()
